@@ -306,6 +306,12 @@ theorem inv_setHidden {fz : Bool} {s : MState} {live : List Info} (h : Inv fz s 
       exact (hfilter (fun q => lastSeg q = n)).symm
     · rw [hmapfile]; exact h.nodup
 
+theorem clear_eq_new (s : MState) : clear s = MState.new := by
+  have h1 : survivesClear (some ("modules_index", "module_nodes")) = false := by decide
+  have h2 : survivesClear (some ("modules_index", "file_module_map")) = false := by decide
+  have h3 : survivesClear (some ("modules_index", "module_name_to_file_ids")) = false := by decide
+  simp [clear, h1, h2, h3, MState.new]
+
 theorem inv_step {cfg : Config} {s : MState} {live : List Info} (h : Inv cfg.fuzzy s live) (op : Op) :
     Inv cfg.fuzzy (step cfg s op) (specStep cfg live op) := by
   cases op with
@@ -335,7 +341,7 @@ theorem inv_step {cfg : Config} {s : MState} {live : List Info} (h : Inv cfg.fuz
   | addMod f mp ws => exact inv_addModule h f mp ws
   | remove f => exact inv_remove h f
   | hide f b => exact inv_setHidden h f b
-  | clear => exact inv_new _
+  | clear => simp only [step, specStep]; rw [clear_eq_new]; exact inv_new _
 
 theorem inv_run (cfg : Config) (ops : List Op) : Inv cfg.fuzzy (run cfg ops) (specLive cfg ops) := by
   unfold run specLive
